@@ -132,11 +132,22 @@ pub fn run(
             };
 
             let spur_path = get_first_route(&spur_result)?;
-            let candidate_path = root_path
-                .into_iter()
-                .chain(spur_path)
-                .cloned()
-                .collect_vec();
+            // the spur search started over from the initial state. traverse its edges again from
+            // the end of the root path so that state and cost accumulate along the whole route.
+            let mut candidate_path = root_path.into_iter().cloned().collect_vec();
+            for spur_edge in spur_path.iter() {
+                let (prev_edge_id, prev_state) = match candidate_path.last() {
+                    Some(prev) => (Some(prev.edge_id), prev.result_state.clone()),
+                    None => (None, si.state_model.initial_state()?),
+                };
+                let edge_traversal = EdgeTraversal::forward_traversal(
+                    spur_edge.edge_id,
+                    prev_edge_id,
+                    &prev_state,
+                    si,
+                )?;
+                candidate_path.push(edge_traversal);
+            }
             let candidate_test_path: &Vec<&EdgeTraversal> = &candidate_path.iter().collect_vec();
             // replace best candidate if current candidate is sufficiently dissimilar to every
             // accepted route and improves on cost
